@@ -72,29 +72,31 @@ void TcpRpc::Impl::cleanup()
 
 bool TcpRpc::Impl::send(const SessionToken &st, const std::string &str)
 {
-    auto ct = session_to_client_.at(st);
-    if (st.isNull())
+    auto iter = session_to_client_.find(st);
+    if (iter == session_to_client_.end())
         return false;
 
-    send(ct, str.c_str(), str.size());
+    send(iter->second, str.c_str(), str.size());
     return true;
 }
 
 bool TcpRpc::Impl::send(const SessionToken &st, char ch)
 {
-    auto ct = session_to_client_.at(st);
-    if (st.isNull())
+    auto iter = session_to_client_.find(st);
+    if (iter == session_to_client_.end())
         return false;
 
-    send(ct, &ch, 1);
+    send(iter->second, &ch, 1);
     return true;
 }
 
 bool TcpRpc::Impl::endSession(const SessionToken &st)
 {
-    auto ct = session_to_client_.at(st);
-    if (ct.isNull())
+    auto iter = session_to_client_.find(st);
+    if (iter == session_to_client_.end())
         return false;
+
+    auto ct = iter->second;
 
     //! 委托执行，否则会出自我销毁的异常
     wp_loop_->runNext(
